@@ -391,7 +391,7 @@ pub fn run(args: &RunArgs) -> i32 {
     });
     // ---------------- part B: print/parse round trip on C07's documents
     let mut per_base = serde_json::Map::new();
-    let plan: Vec<(Base, usize, u64)> = if args.quick() { vec![(Base::ExecRich, 1, 20), (Base::ExecMin, 3, 20), (Base::TsRich, 1, 20), (Base::TsMin, 3, 20)] } else { vec![(Base::ExecRich, 2, 600), (Base::ExecMin, 4, 600), (Base::TsRich, 2, 600), (Base::TsMin, 4, 600)] };
+    let plan: Vec<(Base, usize, u64)> = if args.quick() { vec![(Base::ExecRich, 1, 20), (Base::ExecMin, 4, 30), (Base::TsRich, 1, 20), (Base::TsMin, 4, 30)] } else { vec![(Base::ExecRich, 2, 900), (Base::ExecMin, 5, 900), (Base::TsRich, 2, 900), (Base::TsMin, 5, 900)] };
     let distinct_b = DistinctSet::new();
     let mut edges = stats_a.choice_edges;
     for (base, dev, budget) in plan {
@@ -430,7 +430,10 @@ pub fn run(args: &RunArgs) -> i32 {
                     let memberless = m1.defs.iter().any(|d| d.kind == TsKind::Union && d.members.is_empty());
                     let a2 = parse_type_system_document(&printed).map_err(|e| {
                         let c = primary_class(strings_ts(&m1).into_iter());
-                        let c = if c == "no-string-cause" && memberless { "union-without-members" } else { c };
+                        // a block string whose layout does not round-trip still parses; only quotes / backslashes
+                        // / triple quotes can make the printed text unparsable
+                        let string_can_break_parsing = ["quoted-string-with-quote-or-backslash", "block-string-with-triple-quote", "block-string-ending-in-quote-or-backslash"].contains(&c);
+                        let c = if !string_can_break_parsing && memberless { "union-without-members" } else { c };
                         (c.to_string(), format!("printed text does not parse: {} :: {printed}", e.into_message()))
                     })?;
                     let m2 = conv::ts_ext_doc(&a2);
